@@ -222,8 +222,19 @@ def _run_shard(idx_shard):
         r = ctx.result()
         r["skipped"] = True
     else:
+        import shutil
+        import tempfile
+
+        # every temporary file/directory of this shard (partd spill directories of disk shuffles, csv round trips ...) lives in one
+        # private directory that is removed afterwards, whatever the shard did
+        td = tempfile.mkdtemp(prefix="mc-shard-")
+        old_tmp = tempfile.tempdir
+        tempfile.tempdir = td
         try:
-            mod.run_shard(shard, ctx)
+            import dask
+
+            with dask.config.set(temporary_directory=td):
+                mod.run_shard(shard, ctx)
         except Hang:
             ctx.count("shard_watchdog_escape")
         except HarnessError as e:
@@ -237,6 +248,8 @@ def _run_shard(idx_shard):
             )
         finally:
             _disarm()
+            tempfile.tempdir = old_tmp
+            shutil.rmtree(td, ignore_errors=True)
         r = ctx.result()
     r["shard"] = idx
     r["wall"] = time.time() - t0
